@@ -1,14 +1,15 @@
 (* C10 — Invalid descriptions are rejected and leave no output.
    Part 1 (regenerated from /repo/floogen/cli.py on every run): in the command-line pipeline no step
-   that can raise comes after the first file write, hence a run that raises at any stage (parse,
+   that can reject a description (a stage of the generator, the query handler, the formatter: Cli.rejecting) comes
+   after the first file write, hence a run that raises at any stage (parse,
    create, compile, routing info, either render) has written no package or top-module file; and the
    two files written by a successful run are the package, then the top module. *)
 From FV Require Import Base Cli.
 From FVGen Require Import CliFacts.
 
 Theorem C10_no_output_on_failure : forall k s,
-  nth_error cli_steps k = Some s -> is_call s = true -> written_if_fails_at cli_steps k = [].
-Proof. intros k s. apply no_output_on_failure. vm_compute. reflexivity. Qed.
+  nth_error cli_steps k = Some s -> rejecting s = true -> written_if_fails_at cli_steps k = [].
+Proof. intros k s. apply no_output_on_rejection. vm_compute. reflexivity. Qed.
 Print Assumptions C10_no_output_on_failure.
 
 (* every stage of the generator is among the steps that precede the writes *)
